@@ -258,7 +258,12 @@ class VizierServicer(vizier_service_pb2_grpc.VizierServiceServicer):
       context: Optional[grpc.ServicerContext] = None,
   ) -> empty_pb2.Empty:
     """Deletes a Study."""
-    self.datastore.delete_study(request.name)
+    # Under the study lock, so that the Study cannot disappear between the steps
+    # of another call (CreateTrial and SuggestTrials allocate a trial id and then
+    # create the trial; on the SQL datastore the trial row would outlive the
+    # Study and show up in a Study created later under the same name).
+    with self._study_name_to_lock[request.name]:
+      self.datastore.delete_study(request.name)
     return empty_pb2.Empty()
 
   @_report_lookup_errors
